@@ -140,7 +140,8 @@ PROPS = {
                       "is carried by the tie: the correspondence drives several handles (including "
                       "fresh database() calls) through one interleaved history while the model treats "
                       "them as separate values.",
-        "lean_modules": ["Astral.Props.C17", "Astral.Props.C17Parse"],
+        "lean_modules": ["Astral.Props.C17", "Astral.Props.C17Parse", "Astral.Props.C18"],
+        "generators": ["gen_tables"],
         "theorems": [
             "Astral.C17.all_after_addRec", "Astral.C17.all_after_addMany", "Astral.C17.wf_addRec",
             "Astral.C17.wf_addMany", "Astral.C17.lookupInGroup_sound", "Astral.C17.lookupInGroup_bare",
@@ -150,7 +151,7 @@ PROPS = {
             "Astral.C17Parse.join_split", "Astral.C17Parse.split_pieces_free", "Astral.C17Parse.split_join",
             "Astral.C17Parse.blank_line_skipped", "Astral.C17Parse.comment_line_skipped",
             "Astral.C17Parse.fields_record", "Astral.C17Parse.too_few_fields",
-            "Astral.C17Parse.line_adds_record",
+            "Astral.C17Parse.line_adds_record", "Astral.C18.builtin_names_not_groups",
         ],
         "groups": [G("corr_geo", "geocoder", 2500, 60000)],
         "unproved": ["str.strip (white-space class) and the error precedence for exactly four fields are tied "
@@ -408,7 +409,8 @@ PROPS = {
                       "correspondence; database() is tied by the geocoder correspondence.",
         "lean_modules": ["Astral.Props.C18", "Astral.Props.EoT"],
         "generators": ["gen_tables"],
-        "theorems": ["Astral.C18.builtin_ok", "Astral.C18.builtin_nodup", "Astral.C18.noon_window",
+        "theorems": ["Astral.C18.builtin_ok", "Astral.C18.builtin_nodup", "Astral.C18.builtin_names_not_groups",
+                     "Astral.C18.noon_window",
                      "Astral.EoT.eqOfTime_bound"],
         "groups": [G("corr_geo", "dms", 3000, 40000, exhaustive_thorough=["dms_exhaustive"]),
                    G("corr_geo", "geocoder", 1500, 40000)],
